@@ -116,6 +116,11 @@ class Env(object):
             self.ex.assume.append(z3.Real("EPS") == 0)
             self.ex.eps_zero = True
 
+    def eps_real(self):
+        """finiteness is decided with the regularisers at their real value 1e-16 (DESIGN.md 2.2)"""
+        if self.sym:
+            self.ex.assume.append(z3.Real("EPS") == z3.RealVal("1/10000000000000000"))
+
     def tag(self, t):
         self.tags.append(t)
 
@@ -139,6 +144,11 @@ class Env(object):
 
     def zero(self, name, a, **meta):
         self.obls.append(Obl("equal", name, a, 0, meta))
+
+    def finite(self, name, value, **meta):
+        """every division, root and logarithm inside the term(s) `value` is defined (non-zero denominator,
+        non-negative radicand, positive log argument) on this path  =>  the output is a finite real"""
+        self.obls.append(Obl("finite", name, value, None, meta))
 
     def check(self, name, ok, detail=""):
         """a concrete fact that must hold on every feasible path (types, shapes, registry contents)"""
@@ -323,6 +333,11 @@ def run_symbolic(h, mods, cfg, timeout_ms=20000, max_paths=64, label=""):
                     rec["model_float"] = {k: float(val) for k, val in mv.items()}
                 recs.append(rec)
                 continue
+            if ob.kind == "finite":
+                for rec in _finite_records(ex, env, ob, label, pid, names, timeout_ms):
+                    t_solver += rec["t"]
+                    recs.append(rec)
+                continue
             if ob.kind == "deriv":
                 y, wrt = ob.want
                 if isinstance(y, list):
@@ -357,6 +372,103 @@ def run_symbolic(h, mods, cfg, timeout_ms=20000, max_paths=64, label=""):
     return dict(records=recs, paths=npaths, solver_time=t_solver, feas_queries=nfeas)
 
 
+def _partial_nodes(e, acc, seen):
+    stack = [e]
+    while stack:
+        n = stack.pop()
+        if id(n) in seen:
+            continue
+        seen.add(id(n))
+        if n.op in ("inv", "root") or (n.op == "fn" and n.args[0] == "log"):
+            acc.append(n)
+        for a in n.args:
+            if isinstance(a, dag.E):
+                stack.append(a)
+            elif isinstance(a, tuple):
+                stack.extend(b for b in a if isinstance(b, dag.E))
+
+
+def _contains(e, target, memo):
+    k = id(e)
+    if k in memo:
+        return memo[k]
+    if e is target:
+        memo[k] = True
+        return True
+    r = False
+    for a in e.args:
+        if isinstance(a, dag.E) and _contains(a, target, memo):
+            r = True
+            break
+        if isinstance(a, tuple) and any(isinstance(b, dag.E) and _contains(b, target, memo) for b in a):
+            r = True
+            break
+    memo[k] = r
+    return r
+
+
+def _finite_records(ex, env, ob, label, pid, names, timeout_ms):
+    """one SMT query per partial operation in the output term: can its argument leave the domain?"""
+    vals = ob.got if isinstance(ob.got, (list, tuple)) else [ob.got]
+    nodes, seen = [], set()
+    for v in vals:
+        for x in np.asarray(v, dtype=object).ravel():
+            _partial_nodes(_e(x), nodes, seen)
+    out = []
+    if not nodes:
+        out.append(Record(kind="finite", name=label + "/" + ob.name, path=pid, verdict="unsat", t=0.0, size=1, trivial=True,
+                          phase="no-partial-operations"))
+        return out
+    pre = list(ex.assume) + ex.path_constraints()
+    bad_total = None
+    t_all = 0.0
+    worst = "unsat"
+    nq = 0
+    model = None
+    detail = None
+    for n in sorted(nodes, key=lambda q: q.key):
+        arg = n.args[0] if n.op != "fn" else n.args[1]
+        la = Lower()
+        za = la(arg)
+        if n.op == "inv":
+            bad = za == 0
+            what = "division by zero"
+        elif n.op == "root":
+            if dag.is_nonneg(arg):
+                continue
+            bad = za < 0
+            what = "root of a negative number"
+        else:
+            bad = za <= 0
+            what = "log of a non-positive number"
+        # definitions of the atoms used by the path condition, except this node and whatever depends on it
+        memo = {}
+        side = list(la.side)
+        for nid, node in ex.low.nodes.items():
+            sc = ex.low.side_of.get(node.key)
+            if sc and not _contains(node, n, memo):
+                side += sc
+        v, dt, m, s = solve(pre + side + [bad], min(timeout_ms, 10000), want_model=True)
+        t_all += dt
+        nq += 1
+        if v == "sat":
+            worst = "sat"
+            model = m
+            detail = "%s: argument %s" % (what, dag.show(arg, 5))
+            break
+        if v != "unsat" and worst == "unsat":
+            worst = v
+            detail = "%s undecided: argument %s" % (what, dag.show(arg, 5))
+    rec = Record(kind="finite", name=label + "/" + ob.name, path=pid, verdict=worst, t=round(t_all, 4), size=nq, trivial=False,
+                 phase="domain-obligations(%d partial operations)" % len(nodes), detail=detail)
+    if worst == "sat":
+        mv = model_values(model, names + ["EPS"])
+        rec["model"] = {k: str(val) for k, val in mv.items()}
+        rec["model_float"] = {k: float(val) for k, val in mv.items()}
+    out.append(rec)
+    return out
+
+
 # ------------------------------------------------------------------------------------ replay (real mode)
 def run_real(h, mods, cfg, values):
     env = Env("real", mods, values=values)
@@ -377,6 +489,11 @@ def replay_obligation(h, mods, cfg, values, obl_name, rtol=1e-6):
     ob = obs[0]
     if ob.kind == "fact":
         return dict(confirmed=not ob.got, detail=ob.meta.get("detail"))
+    if ob.kind == "finite":
+        vals = ob.got if isinstance(ob.got, (list, tuple)) else [ob.got]
+        flat = np.concatenate([np.asarray(v, dtype=float).ravel() for v in vals])
+        bad = not np.all(np.isfinite(flat))
+        return dict(confirmed=bool(bad), detail="outputs on the unmodified code: %r" % (flat.tolist()[:12],))
     if ob.kind == "equal":
         a, b = _f(ob.got), _f(ob.want)
         bad = not (abs(a - b) <= 1e-10 * (1 + abs(a) + abs(b)))
